@@ -1813,4 +1813,39 @@ theorem lts_step {a a' : A} {hist new : List (HEv ℚ)} (hi : AInv flow F size c
     simp only [MQ.step, hph, htk']
     simp only [toM, mst, ctlOf, pcOf, phaseOf, h, List.append_nil]
 
+/-! ## the clock -/
+
+/-- the LTS accepts the clock advance to the next entry -/
+theorem lts_tick {a : A} {hist : List (HEv ℚ)} (hi : AInv flow F size cfg Lmax P a now) (hq : IsMin a q) (h : now < q.time) :
+    MQ.step (DRR.sched cfg) (toM cfg.flows flow size a hist now) (.tick q.time) = .ok (toM cfg.flows flow size a hist q.time, .nothing) := by
+  have hne : ∀ x ∈ a.entries, x.time ≠ now := fun x hx hxt => absurd (hi.time_eq hq hx hxt) (ne_of_gt h)
+  have hp := hi.run
+  have hnlt : ¬ q.time < now := not_lt.mpr (le_of_lt h)
+  cases hr : a.run with
+  | init q0 => rw [hr] at hp; exact absurd hp.1 (hne q0 (mem_run (by simp [hr, RPhase.entries])))
+  | K g q0 => rw [hr] at hp; exact absurd hp.1 (hne q0 (mem_run (by simp [hr, RPhase.entries])))
+  | H g m id q0 => rw [hr] at hp; exact absurd hp.1 (hne q0 (mem_run (by simp [hr, RPhase.entries])))
+  | S p m id q0 => rw [hr] at hp; exact absurd hp.1 (hne q0 (mem_run (by simp [hr, RPhase.entries])))
+  | F p m id q0 => rw [hr] at hp; exact absurd hp.1 (hne q0 (mem_run (by simp [hr, RPhase.entries])))
+  | T p t m id q0 =>
+    have h2 : ¬ q0.time < q.time := not_lt.mpr (not_keyLt_time (hq.2 q0 (mem_run (by simp [hr, RPhase.entries]))))
+    simp [MQ.step, doTick, toM, mst, phaseOf, pcOf, hr, hnlt, h2]
+  | W g =>
+    rw [hr] at hp
+    have htk : a.tokens = 0 := by
+      by_contra hc
+      obtain ⟨u, hu⟩ := hp.2.1 hc
+      exact hne u (mem_pend hu) (hi.pend _ hu).1
+    simp [MQ.step, doTick, toM, mst, phaseOf, pcOf, hr, hnlt, htk]
+
+/-- zero or one `tick` brings the LTS to the instant of the next entry -/
+theorem lts_advance {a : A} {hist : List (HEv ℚ)} (hi : AInv flow F size cfg Lmax P a now) (hq : IsMin a q) :
+    ∃ acts, (∀ x ∈ acts, DRR.ActOk (Lmax : ℚ) x) ∧
+      runActs (DRR.sched cfg) (toM cfg.flows flow size a hist now) acts = .ok (toM cfg.flows flow size a hist q.time, [], []) := by
+  rcases eq_or_lt_of_le (hi.now_le hq) with h | h
+  · exact ⟨[], (by intro x hx; cases hx), (by rw [← h]; rfl)⟩
+  · refine ⟨[.tick q.time], (by intro x hx; simp only [List.mem_singleton] at hx; rw [hx]; exact fun p hp => by cases hp), ?_⟩
+    simp only [runActs, lts_tick hi hq h]
+    rfl
+
 end DRRK
